@@ -270,22 +270,57 @@ pub fn examples(th: bool) -> Vec<Example> {
     }
     // ---------------------------------------------------------------- tsptw
     {
-        // n nodes (0 = depot), symmetric distances in {1,2} closed under shortest paths, windows (earliest in {0,2,4}, width in {0,2,5}), depot latest in {6,9,14}
-        let ns: Vec<usize> = if th { vec![2, 3, 4] } else { vec![2, 3] };
-        let sizes: Vec<u64> = ns.iter().map(|n| (1u64 << (n * (n - 1) / 2)) * 9u64.pow((*n - 1) as u32) * 3).collect();
-        let count = sizes.iter().sum();
-        let nsc = ns.clone();
-        ex.push(Example { name: "tsptw", scope: format!("nodes (incl. depot) in {:?}: all symmetric distance matrices over {{1,2}} (metric closure), customer windows earliest in {{0,2,4}} x width in {{0,2,5}}, depot horizon in {{6,9,14}}", ns), count, file_flag: None, tsptw_output: true,
-            arg_sets: argsets(&w4, tt, "-w", "-t"),
+        // n nodes (0 = depot), distances closed under shortest paths, windows, depot horizon.  Three blocks:
+        //  S: symmetric distances over {1,2}, windows earliest {0,2,4} x width {0,2,5}, horizon {6,9,14}
+        //  A: ASYMMETRIC distances over {1,2} on 3 nodes, windows earliest {0,2} x width {0,5}, horizon {6,9,14}
+        //  D: 4 nodes, all distances 1 except <= 2 directed entries raised to 3 (deviation-bounded asymmetry), windows width {4,9} from 0, horizon {9,14}
+        #[derive(Clone, Copy, PartialEq)]
+        enum B { S(usize), A(usize), D }
+        let mut blocks: Vec<(B, u64)> = vec![(B::S(2), 1 * 9 * 3), (B::S(3), 8 * 81 * 3), (B::A(3), 64 * 16 * 3), (B::D, 79 * 8 * 2)];
+        if th { blocks.push((B::S(4), 64 * 729 * 3)); blocks.push((B::A(3), 64 * 81 * 3)); }
+        let count = blocks.iter().map(|b| b.1).sum();
+        let bl = blocks.clone();
+        let th2 = th;
+        ex.push(Example { name: "tsptw", scope: format!("symmetric matrices over {{1,2}} on <= {} nodes (windows earliest {{0,2,4}} x width {{0,2,5}}, horizon {{6,9,14}}); ALL asymmetric matrices over {{1,2}} on 3 nodes; 4 nodes with <= 2 directed entries raised from 1 to 3 (windows width {{4,9}}, horizon {{9,14}}); every matrix closed under shortest paths", if th { 4 } else { 3 }), count, file_flag: None, tsptw_output: true,
+            arg_sets: if th { argsets(&w4, tt, "-w", "-t") } else { argsets(&w4, &[Some(1)], "-w", "-t") },
             gen: Box::new(move |mut idx| {
+                let _ = th2;
                 let mut k = 0;
-                while idx >= sizes[k] { idx -= sizes[k]; k += 1; }
-                let n = nsc[k];
-                let mut d = vec![vec![0i64; n]; n];
-                for i in 0..n { for j in i + 1..n { let x = digit(&mut idx, 2) as i64 + 1; d[i][j] = x; d[j][i] = x; } }
+                while idx >= bl[k].1 { idx -= bl[k].1; k += 1; }
+                let (n, mut d, tw): (usize, Vec<Vec<i64>>, Vec<(i64, i64)>) = match bl[k].0 {
+                    B::S(n) => {
+                        let mut d = vec![vec![0i64; n]; n];
+                        for i in 0..n { for j in i + 1..n { let x = digit(&mut idx, 2) as i64 + 1; d[i][j] = x; d[j][i] = x; } }
+                        let mut tw: Vec<(i64, i64)> = vec![(0, [6, 9, 14][digit(&mut idx, 3) as usize])];
+                        for _ in 1..n { let e = [0, 2, 4][digit(&mut idx, 3) as usize]; let w = [0, 2, 5][digit(&mut idx, 3) as usize]; tw.push((e, e + w)); }
+                        (n, d, tw)
+                    }
+                    B::A(n) => {
+                        let mut d = vec![vec![0i64; n]; n];
+                        for i in 0..n { for j in 0..n { if i != j { d[i][j] = digit(&mut idx, 2) as i64 + 1; } } }
+                        let mut tw: Vec<(i64, i64)> = vec![(0, [6, 9, 14][digit(&mut idx, 3) as usize])];
+                        let full = bl[k].1 == 64 * 81 * 3;
+                        for _ in 1..n {
+                            if full { let e = [0, 2, 4][digit(&mut idx, 3) as usize]; let w = [0, 2, 5][digit(&mut idx, 3) as usize]; tw.push((e, e + w)); }
+                            else { let e = [0, 2][digit(&mut idx, 2) as usize]; let w = [0, 5][digit(&mut idx, 2) as usize]; tw.push((e, e + w)); }
+                        }
+                        (n, d, tw)
+                    }
+                    B::D => {
+                        let n = 4;
+                        let mut d = vec![vec![1i64; n]; n];
+                        for i in 0..n { d[i][i] = 0; }
+                        let pairs: Vec<(usize, usize)> = (0..n).flat_map(|i| (0..n).filter(move |j| *j != i).map(move |j| (i, j))).collect();
+                        let m = digit(&mut idx, 79);
+                        // m = 0: none; 1..=12: one entry; 13..: the (m-13)-th pair of entries
+                        if m >= 1 && m <= 12 { let (i, j) = pairs[m as usize - 1]; d[i][j] = 3; }
+                        if m >= 13 { let sub = subset(12, 2, m - 13); for s in sub { let (i, j) = pairs[s]; d[i][j] = 3; } }
+                        let mut tw: Vec<(i64, i64)> = vec![(0, [9, 14][digit(&mut idx, 2) as usize])];
+                        for _ in 1..n { let w = [4, 9][digit(&mut idx, 2) as usize]; tw.push((0, w)); }
+                        (n, d, tw)
+                    }
+                };
                 for kk in 0..n { for i in 0..n { for j in 0..n { if d[i][kk] + d[kk][j] < d[i][j] { d[i][j] = d[i][kk] + d[kk][j]; } } } }
-                let mut tw: Vec<(i64, i64)> = vec![(0, [6, 9, 14][digit(&mut idx, 3) as usize])];
-                for _ in 1..n { let e = [0, 2, 4][digit(&mut idx, 3) as usize]; let w = [0, 2, 5][digit(&mut idx, 3) as usize]; tw.push((e, e + w)); }
                 let mut best: Option<i64> = None;
                 for p in perms(n - 1) {
                     let mut t = 0; let mut cur = 0; let mut ok = true;
